@@ -49,7 +49,11 @@ package store
 //@   ensures [C01] err == nil && stopic != nil ==> stopic.SeqId == hwm[topic]
 //@   ensures [C01] err == nil && stopic == nil ==> hwm[topic] == 0 && rowMax[topic] == 0
 
+// (C08: subUpdates counts the calls, so that a caller's postcondition can say "the change went to the store")
+//@ ghost var subUpdates int
 //@ func (s SubsPersistenceInterface) Update(topic string, user types.Uid, update map[string]interface{}) (err error)
+//@   modifies subUpdates
+//@   ensures [C08] subUpdates == old(subUpdates) + 1
 
 // C12: the persistent cache as seen by the reset-code authenticator (ghost bookkeeping only: which key was read last,
 // how many entries were deleted / written).
@@ -70,3 +74,13 @@ package store
 // (assumed of the store).
 //@ func (t TopicsPersistenceInterface) GetSubs(topic string, opts *types.QueryOpt) (subs []types.Subscription, err error)
 //@   ensures [C13,assumed] len(subs) > 0 ==> len(topic) >= 3 && (hasPrefix(topic, "usr") || hasPrefix(topic, "p2p") || hasPrefix(topic, "grp") || hasPrefix(topic, "chn") || hasPrefix(topic, "fnd") || hasPrefix(topic, "sys"))
+
+// C06/C07: what the store said about the requester's subscription when it was last read (ghost), so that a later
+// update can be compared with it.
+//@ ghost var gotWantHasO bool
+//@ ghost var gotFound bool
+//@ ghost var gotGiven types.AccessMode
+//@ func (s SubsPersistenceInterface) Get(topic string, user types.Uid, keepDeleted bool) (sub *types.Subscription, err error)
+//@   modifies gotWantHasO, gotFound, gotGiven
+//@   ensures [C06] sub != nil ==> gotWantHasO == ((sub.ModeWant & types.ModeOwner) != 0)
+//@   ensures [C07] gotFound == (sub != nil) && (sub != nil ==> gotGiven == sub.ModeGiven)
